@@ -81,6 +81,19 @@ fn replay(prop: &'static str, file: &str) -> i32 {
         Some("all") | None => adapter::configs().to_vec(),
         Some(name) => vec![adapter::config_by_name(name).unwrap_or_else(|| infra_error("unknown config in replay file"))],
     };
+    // C01: the input may kill the process (stack overflow, abort). Try it in a child first.
+    if prop == "C01" && std::env::var("AISVERIF_CHILD").is_err() {
+        if let Ok(exe) = std::env::current_exe() {
+            if let Ok(o) = std::process::Command::new(exe).arg("C01").arg("--replay").arg(file).env("AISVERIF_CHILD", "1").output() {
+                if !matches!(o.status.code(), Some(0) | Some(1) | Some(2)) {
+                    println!("replay C01: the process running this input died ({:?}): stack overflow or abort", o.status.code());
+                    println!("  verdict: FAILS");
+                    println!("VIOLATION property=C01 replay={}", file);
+                    return 1;
+                }
+            }
+        }
+    }
     let check = props::check_fn(prop);
     let findings = engine::load_findings();
     // histories are first reduced by greedy line removal (keeps the failure, drops what is not needed)
